@@ -80,6 +80,12 @@ def record_runs(scn, refs, tier, seed):
     class ProjBoom(Exception):
         pass
 
+    class ProjBase(BaseException):
+        pass
+    # what the consumer's code raises: an ordinary exception, or one of those that are no `Exception`
+    # (Ctrl-C while an answer is processed, sys.exit() in the projection, a generator being closed)
+    KINDS = [ProjBoom, KeyboardInterrupt, SystemExit, GeneratorExit, ProjBase]
+
     inner_traces = []
 
     def one(goal, qnv, L, raise_at, probe=False, nest=False):
@@ -116,7 +122,7 @@ def record_runs(scn, refs, tier, seed):
             raises = (count[0] == raise_at)
             events.append({"ev": "answer", "ans": ans, "raises": raises})
             if raises:
-                raise ProjBoom()
+                raise KINDS[(L + raise_at) % len(KINDS)]()
             return ans
         before = sys.getrecursionlimit()
         events.insert(0, {"ev": "begin", "limit": L, "before": before})
@@ -136,7 +142,7 @@ def record_runs(scn, refs, tier, seed):
             sys.setprofile(prof)
         try:
             result = yp.evaluate_bounded(q, proj, recursion_limit=L)
-        except ProjBoom:
+        except tuple(KINDS):
             escaped = "proj"
         except RecursionError:
             escaped = "RecursionError"
